@@ -447,9 +447,6 @@ theorem C09_trace (sha1 : Bytes → Bytes) (s : HState) (halive : s.alive = true
 /-! ### The manager side: `load` is answered only for owned pieces of an unchoked peer
     (`Peer::handle_request`, modelled here as the decision function itself) -/
 
-/-- `Peer::handle_request`. -/
-def managerAnswersLoad (amChoked : Bool) (piecesNum idx : Nat) (isHave : Bool) : Bool :=
-  !amChoked && decide (idx < piecesNum) && isHave
 
 theorem load_only_if_unchoked_and_owned (amChoked : Bool) (n idx : Nat) (isHave : Bool)
     (h : managerAnswersLoad amChoked n idx isHave = true) : amChoked = false ∧ idx < n ∧ isHave = true := by
